@@ -104,6 +104,7 @@ type driver struct {
 	only       map[string]bool
 	flaky      bool
 	noShrink   bool
+	noUDPSeam  bool
 	bdir       string
 	work       string
 	bins       map[string]string
@@ -163,14 +164,29 @@ func (d *driver) build() error {
 		tree := d.repo
 		if strings.HasPrefix(b, "instr") {
 			if instrTree == "" {
-				t, err := d.instrument()
+				t, err := d.instrument(true)
+				if err == nil {
+					// the substitution of an interface for *net.UDPConn must leave a tree that compiles
+					chk := exec.Command(goBin(), "build", "-tags", "verifsim", ".")
+					chk.Dir, chk.Env = t, goEnv()
+					if o, cerr := chk.CombinedOutput(); cerr != nil {
+						os.RemoveAll(filepath.Dir(t))
+						fmt.Printf("[%s] note: the instrumented copy does not compile with the UDP socket seam (%s); falling back to the generic PacketConn branch for datagram runs\n", d.prop, firstLine(string(o)))
+						d.noUDPSeam = true
+						t, err = d.instrument(false)
+					}
+				}
 				if err != nil {
 					return err
 				}
 				instrTree = t
 			}
 			tree = instrTree
-			args = append(args, "-tags", "verifsim")
+			if d.noUDPSeam {
+				args = append(args, "-tags", "verifsim")
+			} else {
+				args = append(args, "-tags", "verifsim,verifsimudp")
+			}
 		}
 		gm, err := os.ReadFile(filepath.Join(sim, "go.mod"))
 		if err != nil {
@@ -195,7 +211,7 @@ func (d *driver) build() error {
 // instrument copies the repository's working tree to a scratch directory and
 // rewrites it with scheduling points (DESIGN 2.2). The copy is removed when
 // the build is done.
-func (d *driver) instrument() (string, error) {
+func (d *driver) instrument(udpSeam bool) (string, error) {
 	tmp, err := os.MkdirTemp("", "verifsim-instr-")
 	if err != nil {
 		return "", err
@@ -206,7 +222,7 @@ func (d *driver) instrument() (string, error) {
 		os.RemoveAll(tmp)
 		return "", fmt.Errorf("copying tree: %v %s", err, o)
 	}
-	cmd := exec.Command(goBin(), "run", "./cmd/instr", "-dir", tree)
+	cmd := exec.Command(goBin(), "run", "./cmd/instr", "-dir", tree, fmt.Sprintf("-udp=%v", udpSeam))
 	cmd.Dir = filepath.Join(d.root, "sim")
 	cmd.Env = goEnv()
 	if o, err := cmd.CombinedOutput(); err != nil {
